@@ -51,7 +51,7 @@ Definition wst (p : pc) : wstage :=
 
 Definition cst (p : pc) : cstage :=
   match p with
-  | S_aaw | S_fload _ | S_fbody _ _ | S_wprep _ | S_xchg _ | S_head _ _ | S_link _ _ | S_sw | S_pwload _ | S_pwbody _ _
+  | S_aaw | S_ftail _ | S_fload _ | S_fbody _ _ | S_wprep _ | S_xchg _ | S_head _ _ | S_link _ _ | S_sw | S_pwload _ | S_pwbody _ _
   | S_sub _ | S_eload _ | S_futex _ | S_sleep _ | S_woken _ | S_fake _ | S_call _ _ => CBefore
   | S_incall _ _ => CIn
   | S_tail | S_uload | S_ubody _ | S_ret => CAfter
